@@ -102,7 +102,9 @@ def run_fast(pgn, src, dest, prio, payload, seq, variant):
         out["actisense"] = None
     # the caller reads every packet into ONE reusable buffer (recv_into / readinto style) and overwrites it for the next packet
     for name, size, render, call in (("ebyte-reused-buffer", 13, lambda fr: wire.ebyte(ident, fr, pad), lambda d, b: d.decode_tcp(b)),
-                                     ("usb-reused-buffer", 20, lambda fr: wire.usb(ident, fr, pad), lambda d, b: d.decode_usb(b))):
+                                     ("usb-reused-buffer", 20, lambda fr: wire.usb(ident, fr, pad), lambda d, b: d.decode_usb(b)),
+                                     ("ebyte-reused-buffer-view", 13, lambda fr: wire.ebyte(ident, fr, pad), lambda d, b: d.decode_tcp(memoryview(b))),
+                                     ("usb-reused-buffer-view", 20, lambda fr: wire.usb(ident, fr, pad), lambda d, b: d.decode_usb(memoryview(b)))):
         try:
             d = NMEA2000Decoder(**DEC_KW)
             buf = bytearray(size)
